@@ -521,7 +521,9 @@ class SigmaCorrelationRule(SigmaRuleBase, ProcessingItemTrackingMixin):
         collect_errors: bool = False,
         source: SigmaRuleLocation | None = None,
     ) -> Self:
+        rule, document_errors = cls.document_as_map(rule, collect_errors, source)
         kwargs, errors = super().from_dict_common_params(rule, collect_errors, source)
+        errors[0:0] = document_errors
         correlation_rule = rule.get("correlation", dict())
         if not isinstance(correlation_rule, dict):
             errors.append(
